@@ -206,6 +206,15 @@ SCHEMAS = {
         'uniques': {},
     },
 }
+# attribute types that are no core type but look like one (a fragment, a prefix, a plural, the empty name)
+NEAR_TYPES = ['INT', 'BOOL', 'STR', 'ID', 'UNIQUE', 'REA', 'INTEGERS', 'STRING_', 'UNIQUE_ID2', 'E', 'Bool', 'int', 'uniqueid', 'NUMBER']
+for _k, _t in enumerate(NEAR_TYPES):
+    SCHEMAS['unknown_type_%d' % _k] = {
+        'classes': ['W'],
+        'attrs': {'W': [at('Id', ID), at('Odd', _t), at('Late', ID)] if _k % 2 == 0 else [at('Odd', _t), at('Id', ID)]},
+        'assocs': [],
+        'uniques': {},
+    }
 SCHEMAS['subsuper']['supertypes'] = [['SUP', 'R6']]
 SCHEMAS['assoc_reflexive']['attrs'] = {'N': [at('Id', ID)], 'E': [at('One_Id', ID), at('Other_Id', ID)]}
 SCHEMAS['assoc_reflexive']['assocs'] = [
